@@ -903,6 +903,8 @@ class Engine:
         self.n_checks = 0
         self.labels = {}
         self.sites = {}
+        self.cross = []
+        self.crosscheck = False
 
     # -- per path
     def begin(self, prefix, work):
@@ -1081,11 +1083,52 @@ class Engine:
         if len(self.pending) >= 64:
             self.flush()
 
+    def _external(self, neg):
+        """closed lemmas: the same query (SMT-LIB2 dump of the path condition and the negated clauses) is handed to
+        /usr/bin/z3 (4.8.12) and cvc5; an answer of `sat` while z3 5.1 says `unsat` is a disagreement, any `(error` is
+        inconclusive; time-outs are recorded"""
+        import subprocess
+        import tempfile
+        s2 = z3.Solver()
+        s2.add(self.solver.assertions())
+        s2.add(neg)
+        text = "(set-logic QF_BV)\n" + s2.to_smt2()
+        out = {}
+        with tempfile.NamedTemporaryFile("w", suffix=".smt2", delete=True) as f:
+            f.write(text)
+            f.flush()
+            for name, cmd in (("z3-4.8.12", ["/usr/bin/z3", "-smt2", "-T:90", f.name]),
+                              ("cvc5-1.0", ["cvc5", "--tlimit=90000", f.name])):
+                try:
+                    r = subprocess.run(cmd, capture_output=True, text=True, timeout=120)
+                    txt = (r.stdout + r.stderr).strip()
+                    first = txt.splitlines()[0].strip() if txt else "no output"
+                    if "(error" in txt:
+                        first = "error: " + txt[:120]
+                    elif first not in ("sat", "unsat", "unknown"):
+                        first = "timeout" if "timeout" in txt.lower() or "interrupted" in txt.lower() else first[:60]
+                except subprocess.TimeoutExpired:
+                    first = "timeout"
+                except OSError as e:
+                    first = "unavailable: %s" % e
+                out[name] = first
+        self.cross.append(out)
+        return out
+
     def flush(self):
         if not self.pending:
             return
         pend, self.pending = self.pending, []
         neg = z3.Or(*[z3.Not(c) for c, _l, _d in pend]) if len(pend) > 1 else z3.Not(pend[0][0])
+        if self.crosscheck:
+            ext = self._external(neg)
+            if not self._sat(neg):
+                for name, ans in ext.items():
+                    if ans == "sat":
+                        raise EngineLimit("solver disagreement: z3 5.1 says unsat, %s says sat" % name)
+                    if ans.startswith("error"):
+                        raise EngineLimit("external solver %s: %s" % (name, ans))
+                return
         if self._sat(neg):
             m = self.solver.model()
             for c, label, detail in pend:
